@@ -218,6 +218,14 @@ pub fn gen(tier: Tier, rng: &mut Rng) -> Vec<Sx> {
         let s: String = (0..k).map(|_| *rng.pick(&SMALL)).collect::<Vec<&str>>().concat();
         for e in 10..=13 { v.push(mk(e, &s)); }
     }
+    // 4d. integer extremes in the evaluator (entry 1): every pair of {i64::MIN, i64::MIN + 1, i64::MAX, -1, 0, 1, 2, -2} under every operator, as
+    //     literals and as the value of a parenthesised difference (an i64 quotient or remainder that does not exist must be an error or a float, not a panic)
+    const EXT: [&str; 10] = ["-9223372036854775808", "-9223372036854775807", "9223372036854775807", "-1", "0", "1", "2", "-2",
+        "(0 - 9223372036854775807 - 1)", "(9223372036854775806 + 1)"];
+    for a in EXT { for b in EXT { for op in ["+", "-", "*", "/", "%"] {
+        v.push(mk(1, &format!("{} {} {}", a, op, b)));
+        if rng.chance(1, 4) { v.push(mk(1, &format!("{}{}{} {} {}", a, op, b, *rng.pick(&["+", "*", "/", "%"]), *rng.pick(&EXT)))); }
+    } } }
     // 5. deep prefix chains and nesting up to 4 KiB
     for e in 1..nent { for (p, q) in [("!", ""), ("(", ""), ("(", ")"), ("[", "]"), ("{", "}"), ("NOT ", ""), ("-", ""), ("!(", ")"), ("exists(", ")")] {
         for n in [33usize, 500, 4000 / (p.len() + q.len()).max(1)] { let s = format!("{}X.a == 1{}", p.repeat(n), q.repeat(n)); v.push(mk(e, &s[..s.len().min(4096)])); } } }
